@@ -32,6 +32,9 @@ OPENS, CLOSES = ["{%", "{#", "{{", "<!--"], ["%}", "#}", "}}", "-->"]
 
 
 def classify(kf, rec):
+    import common
+    if common.repro_only(kf, rec):
+        return True
     c = rec["case"]
     if kf.get("classifier") == "separated-tags-merged":
         return rec["what"].startswith("spacing: separated tags became adjacent")
@@ -176,6 +179,12 @@ def run(chk: Check) -> None:
             nbd += 1
             chk.fail("property", {"doc": doc, "opts": o, "out": out}, "tag block: " + why, classify)
     chk.port_stat("spec: tag-delimited blocks through reformat_text", nd, nbd)
+    # listed with a fixed reproducer only (D-93): an adjacent open/close pair that wrapping moves to a continuation line
+    doc = "Some long text that wraps to the next line and has {% field %}{% /field %} after it.\n"
+    out = reformat_text(doc, width=40, semantic=False)
+    chk.count()
+    if "{% field %}{% /field %}" not in out:
+        chk.fail("property", {"doc": doc, "opts": {"width": 40}, "out": out, "repro": "D-93"}, "adjacent tag pair split: " + repr(out), classify)
 
 
 def replay(path: str) -> int:
